@@ -147,6 +147,6 @@ Example handoff_to_cancelled_writer_somewhere :
 Proof.
   destruct (orun st action step rw_hits all_co (oinit st (init false)) osch) as [os|] eqn:E; [|vm_compute in E; discriminate].
   exists os. split; [reflexivity|]. split; [eapply orun_reach; [constructor | exact E]|].
-  vm_compute in E. injection E as <-. cbn. repeat split; try reflexivity.
-  eexists. split; [vm_compute; reflexivity|]. cbn. repeat split; reflexivity.
+  vm_compute in E. injection E as <-. repeat split; try (vm_compute; reflexivity).
+  eexists. split; [vm_compute; reflexivity|]. repeat split; vm_compute; reflexivity.
 Qed.
